@@ -430,6 +430,9 @@ func (w *World) isSentinel(g *ssa.Global) bool {
 	if !ok || n.Obj().Name() != "error" || n.Obj().Pkg() != nil {
 		return false
 	}
+	if g.Name() == "EOF" && g.Pkg != nil && g.Pkg.Pkg.Path() == "io" {
+		return true // io.EOF = errors.New("EOF")
+	}
 	return strings.HasPrefix(g.Name(), "Err") || strings.HasPrefix(g.Name(), "err")
 }
 
